@@ -29,6 +29,9 @@ CLAIMS = {
 
  "C09": ("Structural necessary conditions of valid TS output: the PAT/PMT literal is evaluated completely from source (lengths, PIDs, stream types, CRC-32/MPEG recomputed), every sink write is the table or a whole [188]byte packet with sync byte, exactly one PID-selected continuity-counter increment per packet masked to 4 bits, packetiser frame fields derive from the source frame with the fixed PID/stream-id constants, ADTS length constants agree between writer and reader, SPS/PPS inserted only before IDR. Does not decide payload fidelity or stuffing/PTS arithmetic.",
          "constant-table evaluation (incl. CRC recomputation) + SSA path-state + dependence", "DESIGN.md §3 C09"),
+
+ "C10": ("Structural necessary conditions of consistent HLS output: no alias of a pooled buffer escapes (playlist bytes, in-memory segment readers), the segment list is accessed only under its lock, segment cuts are dominated by the key-frame test (one recorded known finding: audio-triggered cut), one window constant for readiness and retention, playlist header fields derive from the listed segments, a closed segment is published or deleted-with-number-reuse. Does not decide sequence arithmetic, durations or byte identity.",
+         "pooled-alias escape analysis + lockset + SSA path-state + constant evaluation", "DESIGN.md §3 C10"),
 }
 NA = {
  "C16": "pure input/output language equivalence of the pattern matcher over all pattern/path pairs: truth lives in string values, no structural clause implies it; deciding it needs exhaustive evaluation (execution), a different technique family",
